@@ -258,8 +258,8 @@ def run_shard(shard, ctx):
             else:
                 if (j + shard['first']) % 3:
                     continue
-                thirds = [(5 * j + 2 * shard['first'] + 1) % 27, (11 * j + shard['first'] + 14) % 27,
-                          (7 * j + 3 * shard['first'] + 23) % 27, j]
+                thirds = sorted({(5 * j + 2 * shard['first'] + 1) % 27, (11 * j + shard['first'] + 14) % 27,
+                                 (7 * j + 3 * shard['first'] + 23) % 27, j})
             for k in thirds:
                 data = [a.tolist(), V[j].tolist(), V[k].tolist()]
                 for m in ALL:
